@@ -109,3 +109,18 @@ func specRREncoded(b []byte, off int, r ReceptionReport) bool {
 
 // specPad4: octets needed to pad n octets to a 32-bit boundary (RFC 3550 section 6.4: packets are 32-bit aligned).
 func specPad4(n int) int { return (4 - n%4) % 4 }
+
+// ---- RFC 3550 section 6.6: BYE ----
+
+// specByeSize: header + n SSRCs + optional (length octet + reason), padded to 32 bits.
+func specByeSize(n, reasonLen int) int {
+	l := 4 + 4*n
+	if reasonLen > 0 {
+		l += 1 + reasonLen
+	}
+	return l + specPad4(l)
+}
+
+// ---- RFC 3550 section 6.7: APP ----
+
+func specAppSize(dataLen int) int { return 12 + dataLen + specPad4(dataLen) }
